@@ -15,6 +15,7 @@ import EzdxfVerif.Lemmas.ReadersLines
 import EzdxfVerif.Lemmas.ReadersRepair
 import EzdxfVerif.Lemmas.ReadersSniff
 import EzdxfVerif.Lemmas.ReadersRecVer
+import EzdxfVerif.Model.ReadersFilter
 import EzdxfVerif.Gen.ReaderTables
 
 namespace EzdxfVerif.Props.C08
@@ -769,6 +770,119 @@ theorem r12export_read_agree (cfg : Cfg) (m : Nat) (hr : ReqLinked cfg) (header 
   have hf : f = writeDoc (r12exportDoc header tables blocks msp psp) := r12export_structure header tables blocks msp psp
   rw [hf]
   exact ⟨writeDoc_wf cfg m _ h, write_then_read_agree cfg m hr _ h⟩
+
+/-! ## the `types=` filter of the iterdxf readers and reader purity (follow-up to session 3) -/
+
+/-- no filter (`None`) and an empty filter select every supported type: the set the module defines, unchanged -/
+theorem requested_unfiltered (sup : List String) :
+    requestedTypes sup none = sup ∧ requestedTypes sup (some []) = sup := ⟨rfl, rfl⟩
+
+/-- `_requested_types` as a pure function of (`SUPPORTED_TYPES`, `types`): a type is requested iff it is supported and
+    asked for, or it is a linked sub-entity type of a requested POLYLINE / INSERT -/
+theorem requested_mem_iff (sup : List String) (t : String) (ts : List String) (x : String) :
+    x ∈ requestedTypes sup (some (t :: ts)) ↔
+      (x ∈ sup ∧ x ∈ t :: ts) ∨
+      ("POLYLINE" ∈ sup ∧ "POLYLINE" ∈ t :: ts ∧ (x = "SEQEND" ∨ x = "VERTEX")) ∨
+      ("INSERT" ∈ sup ∧ "INSERT" ∈ t :: ts ∧ (x = "SEQEND" ∨ x = "ATTRIB")) := by
+  have hf : ∀ y, y ∈ sup.filter (fun s => (t :: ts).contains s) ↔ y ∈ sup ∧ y ∈ t :: ts := by
+    intro y; simp [List.mem_filter]
+  have hne : ("INSERT" : String) ∉ ["SEQEND", "VERTEX"] := by decide
+  simp only [requestedTypes]
+  by_cases hp : "POLYLINE" ∈ sup ∧ "POLYLINE" ∈ t :: ts
+  · have c1 : (sup.filter (fun s => (t :: ts).contains s)).contains "POLYLINE" = true := by
+      rw [List.contains_iff_mem]; exact (hf _).mpr hp
+    simp only [c1, if_true]
+    by_cases hi : "INSERT" ∈ sup ∧ "INSERT" ∈ t :: ts
+    · have c2 : (sup.filter (fun s => (t :: ts).contains s) ++ ["SEQEND", "VERTEX"]).contains "INSERT" = true := by
+        rw [List.contains_iff_mem]; exact List.mem_append_left _ ((hf _).mpr hi)
+      simp only [c2, if_true, List.mem_append, hf]
+      simp only [hp, hi, and_self, true_and, List.mem_cons, List.not_mem_nil, or_false, or_assoc]
+    · have c2 : (sup.filter (fun s => (t :: ts).contains s) ++ ["SEQEND", "VERTEX"]).contains "INSERT" = false := by
+        cases h : (sup.filter (fun s => (t :: ts).contains s) ++ ["SEQEND", "VERTEX"]).contains "INSERT" with
+        | false => rfl
+        | true =>
+          rw [List.contains_iff_mem, List.mem_append] at h
+          rcases h with h | h
+          · exact absurd ((hf _).mp h) hi
+          · exact absurd h hne
+      simp only [c2, Bool.false_eq_true, if_false, List.mem_append, hf]
+      have hi' : ¬("INSERT" ∈ sup ∧ "INSERT" ∈ t :: ts ∧ (x = "SEQEND" ∨ x = "ATTRIB")) := fun h => hi ⟨h.1, h.2.1⟩
+      simp only [hi', or_false]
+      simp only [hp, true_and, List.mem_cons, List.not_mem_nil, or_false]
+  · have c1 : (sup.filter (fun s => (t :: ts).contains s)).contains "POLYLINE" = false := by
+      cases h : (sup.filter (fun s => (t :: ts).contains s)).contains "POLYLINE" with
+      | false => rfl
+      | true => rw [List.contains_iff_mem] at h; exact absurd ((hf _).mp h) hp
+    have hp' : ¬("POLYLINE" ∈ sup ∧ "POLYLINE" ∈ t :: ts ∧ (x = "SEQEND" ∨ x = "VERTEX")) := fun h => hp ⟨h.1, h.2.1⟩
+    simp only [c1, Bool.false_eq_true, if_false]
+    by_cases hi : "INSERT" ∈ sup ∧ "INSERT" ∈ t :: ts
+    · have c2 : (sup.filter (fun s => (t :: ts).contains s)).contains "INSERT" = true := by
+        rw [List.contains_iff_mem]; exact (hf _).mpr hi
+      simp only [c2, if_true, List.mem_append, hf]
+      simp only [hp', false_or]
+      simp only [hi, true_and, List.mem_cons, List.not_mem_nil, or_false]
+    · have c2 : (sup.filter (fun s => (t :: ts).contains s)).contains "INSERT" = false := by
+        cases h : (sup.filter (fun s => (t :: ts).contains s)).contains "INSERT" with
+        | false => rfl
+        | true => rw [List.contains_iff_mem] at h; exact absurd ((hf _).mp h) hi
+      have hi' : ¬("INSERT" ∈ sup ∧ "INSERT" ∈ t :: ts ∧ (x = "SEQEND" ∨ x = "ATTRIB")) := fun h => hi ⟨h.1, h.2.1⟩
+      simp only [c2, Bool.false_eq_true, if_false, hf, hp', hi', or_false]
+
+/-- a filter that asks for POLYLINE and INSERT satisfies `ReqLinked`: `iter_agrees`, `index_agrees`,
+    `single_pass_characterised` hold for that filtered read as they stand -/
+theorem filtered_req_linked (cfg : Cfg) (sup ts : List String) (h1 : "POLYLINE" ∈ sup) (h2 : "INSERT" ∈ sup)
+    (h3 : "POLYLINE" ∈ ts) (h4 : "INSERT" ∈ ts) : ReqLinked (cfg.withTypes sup (some ts)) := by
+  cases ts with
+  | nil => simp at h3
+  | cons t r =>
+    have hm := fun x => requested_mem_iff sup t r x
+    simp only [ReqLinked, Cfg.withTypes, List.contains_iff_mem]
+    refine ⟨?_, ?_, ?_, ?_, ?_⟩
+    · exact (hm _).mpr (Or.inl ⟨h1, h3⟩)
+    · exact (hm _).mpr (Or.inl ⟨h2, h4⟩)
+    · exact (hm _).mpr (Or.inr (Or.inl ⟨h1, h3, Or.inr rfl⟩))
+    · exact (hm _).mpr (Or.inr (Or.inr ⟨h2, h4, Or.inr rfl⟩))
+    · exact (hm _).mpr (Or.inr (Or.inl ⟨h1, h3, Or.inl rfl⟩))
+
+/-- the regenerated probe shows the repaired filter (fix a635ea5a3): stand-alone entities of implicitly loaded types are
+    kept back -/
+theorem gen_filter_fixed : ReaderTables.filterDropsImplicit = true := by decide
+
+/-- the defect the histories stream uncovered, and its repair: asking for POLYLINE alone also loads SEQEND; without the
+    fix the SEQEND of an INSERT whose main entity was skipped came out as a stand-alone entity in front of the POLYLINE -/
+theorem filter_drops_stray_seqend :
+    let sup := ["INSERT", "LINE", "POLYLINE", "ATTRIB", "VERTEX", "SEQEND"]
+    let f := [tSECTION, ⟨2, "ENTITIES"⟩, ⟨0, "INSERT"⟩, ⟨66, "1"⟩, ⟨0, "ATTRIB"⟩, ⟨5, "A"⟩, ⟨0, "SEQEND"⟩, ⟨5, "B"⟩,
+       ⟨0, "POLYLINE"⟩, ⟨5, "C"⟩, ⟨0, "VERTEX"⟩, ⟨5, "D"⟩, ⟨0, "SEQEND"⟩, ⟨5, "E"⟩, tENDSEC, tEOF]
+    let poly : Ent := ⟨[⟨0, "POLYLINE"⟩, ⟨5, "C"⟩], [[⟨0, "VERTEX"⟩, ⟨5, "D"⟩]], some [⟨0, "SEQEND"⟩, ⟨5, "E"⟩]⟩
+    iterModelspace (cfgS.withTypes sup (some ["POLYLINE"]) false) f = .ok [Ent.single [⟨0, "SEQEND"⟩, ⟨5, "B"⟩], poly] ∧
+    iterModelspace (cfgS.withTypes sup (some ["POLYLINE"]) true) f = .ok [poly] := by
+  decide
+
+/-- a filtered read that asks for POLYLINE and INSERT (and whatever else): on every file that is well-formed for the
+    filter's `Cfg` the three iterdxf readers return the Spec's modelspace for that filter - the requested main entities
+    with their linked sub-entities, without stand-alone VERTEX / ATTRIB / SEQEND entities nobody asked for -/
+theorem filtered_read_agrees (cfg : Cfg) (m : Nat) (hm : 2 ≤ m) (sup ts : List String)
+    (h1 : "POLYLINE" ∈ sup) (h2 : "INSERT" ∈ sup) (h3 : "POLYLINE" ∈ ts) (h4 : "INSERT" ∈ ts) (f : List Tag)
+    (hwf : FileWF' (cfg.withTypes sup (some ts)) m f = true) :
+    let c := cfg.withTypes sup (some ts)
+    iterModelspace c f = .ok ((Spec.ofFile c f).filter c.truthy) ∧
+    singlePass c true f = .ok ((Spec.ofFile c f).filter c.truthy) ∧
+    indexModelspace c m f = .ok ((Spec.ofFile c f).filter c.truthy) := by
+  intro c
+  have hr : ReqLinked c := filtered_req_linked cfg sup ts h1 h2 h3 h4
+  refine ⟨iter_agrees c m hr f hwf, ?_, index_agrees c m hm hr f hwf⟩
+  rw [single_pass_characterised c m hr true f hwf]; rfl
+
+/-- r12writer: every `add_*` method starts at most ONE iteration over each of its `Iterable` arguments (regenerated
+    probe table over the live signatures: generators and other one-shot iterables are legal arguments), and the table
+    covers the six methods the model knows -/
+theorem gen_r12_iterables_once :
+    ReaderTables.r12IterCounts.all (fun e => decide (e.2.2 ≤ 1)) = true ∧
+    ReaderTables.r12IterCounts.map (fun e => (e.1, e.2.1)) =
+      [("add_3dface", "vertices"), ("add_polyface", "vertices"), ("add_polyface", "faces"), ("add_polyline", "vertices"),
+       ("add_polyline_2d", "points"), ("add_polymesh", "vertices"), ("add_solid", "vertices")] := by
+  decide
 
 /-! ## JSON tags -/
 
